@@ -31,7 +31,9 @@ import (
 // the property's checker on the observations.
 
 const (
-	c06GovMin  = 1000 // gov MinDeposit (bond denom)
+	c06GovMin  = 1000 // gov MinDeposit, bond denom (denom A)
+	c06GovMinB = 20   // gov MinDeposit, second deposit denom (denom B)
+	c06DenomB  = "bbbcoin"
 	c06NUsers  = 5    // universe ids 0..4 = plain accounts
 	c06IDGov   = 5    // universe id 5 = gov module account  (unsanctionable)
 	c06IDQuar  = 6    // universe id 6 = quarantine funds holder (unsanctionable)
@@ -65,8 +67,10 @@ type c06Obs struct {
 	temps [][3]int64 // addr id, proposal id, 1 = sanction / 0 = unsanction
 	live  []uint64
 	bals  []int64
-	smin  int64
-	umin  int64
+	deps  [][3]int64 // proposal id, total deposit A, total deposit B (live proposals)
+	balsb []int64
+	smin  [2]int64
+	umin  [2]int64
 }
 
 func c06Deliver(app *simapp.App, ctx sdk.Context, msg sdk.Msg) error {
@@ -135,6 +139,11 @@ func (h *c06Hist) observe(ok bool) c06Obs {
 	err = e.app.GovKeeper.Proposals.Walk(h.ctx, nil, func(id uint64, p govv1.Proposal) (bool, error) {
 		if p.Status == govv1.StatusDepositPeriod || p.Status == govv1.StatusVotingPeriod {
 			o.live = append(o.live, id)
+			td := sdk.NewCoins(p.TotalDeposit...)
+			if len(td) > 2 || (len(td) == 2 && (td.AmountOf(e.bond).IsZero() || td.AmountOf(c06DenomB).IsZero())) {
+				e.t.Fatalf("deposit in an unexpected denom: %s", td)
+			}
+			o.deps = append(o.deps, [3]int64{int64(id), td.AmountOf(e.bond).Int64(), td.AmountOf(c06DenomB).Int64()})
 		}
 		return false, nil
 	})
@@ -143,16 +152,28 @@ func (h *c06Hist) observe(ok bool) c06Obs {
 	}
 	for i := 0; i < c06NUsers; i++ {
 		o.bals = append(o.bals, e.app.BankKeeper.GetBalance(h.ctx, h.addrs[i], e.bond).Amount.Int64())
+		o.balsb = append(o.balsb, e.app.BankKeeper.GetBalance(h.ctx, h.addrs[i], c06DenomB).Amount.Int64())
 	}
 	qp, err := e.app.SanctionKeeper.Params(h.ctx, &sanction.QueryParamsRequest{})
 	if err != nil {
 		e.t.Fatalf("Params query: %v", err)
 	}
-	o.smin = qp.Params.ImmediateSanctionMinDeposit.AmountOf(e.bond).Int64()
-	o.umin = qp.Params.ImmediateUnsanctionMinDeposit.AmountOf(e.bond).Int64()
-	if len(qp.Params.ImmediateSanctionMinDeposit) > 1 || len(qp.Params.ImmediateUnsanctionMinDeposit) > 1 {
-		e.t.Fatalf("params in more than one denom")
+	pair := func(c sdk.Coins) [2]int64 {
+		a, b := c.AmountOf(e.bond), c.AmountOf(c06DenomB)
+		n := 0
+		if a.IsPositive() {
+			n++
+		}
+		if b.IsPositive() {
+			n++
+		}
+		if len(c) != n {
+			e.t.Fatalf("params in an unexpected denom: %s", c)
+		}
+		return [2]int64{a.Int64(), b.Int64()}
 	}
+	o.smin = pair(qp.Params.ImmediateSanctionMinDeposit)
+	o.umin = pair(qp.Params.ImmediateUnsanctionMinDeposit)
 	return o
 }
 
@@ -175,20 +196,31 @@ func (o c06Obs) coq() string {
 	for i, b := range o.bals {
 		bals = append(bals, fmt.Sprintf("(%d%%N, %s)", i, zI64(b)))
 	}
-	return fmt.Sprintf("{| o_ok := %s; o_sanct := %s; o_perm := %s; o_temps := %s; o_live := %s; o_bals := %s; o_smin := %s; o_umin := %s |}",
-		coqBool(o.ok), nList(o.sanct), nList(o.perm), coqList(temps), coqList(live), coqList(bals), zI64(o.smin), zI64(o.umin))
+	var balsb, deps []string
+	for i, b := range o.balsb {
+		balsb = append(balsb, fmt.Sprintf("(%d%%N, %s)", i, zI64(b)))
+	}
+	for _, d := range o.deps {
+		deps = append(deps, fmt.Sprintf("(%d%%N, %s)", d[0], pair2(d[1], d[2])))
+	}
+	return fmt.Sprintf("{| o_ok := %s; o_sanct := %s; o_perm := %s; o_temps := %s; o_live := %s; o_deps := %s; o_bals := %s; o_balsb := %s; o_smin := %s; o_umin := %s |}",
+		coqBool(o.ok), nList(o.sanct), nList(o.perm), coqList(temps), coqList(live), coqList(deps), coqList(bals), coqList(balsb),
+		pair2(o.smin[0], o.smin[1]), pair2(o.umin[0], o.umin[1]))
 }
 
 func (o c06Obs) json() map[string]any {
-	return map[string]any{"ok": o.ok, "sanctioned": o.sanct, "permanent": o.perm, "temporary": o.temps, "live_proposals": o.live, "balances": o.bals}
+	return map[string]any{"ok": o.ok, "sanctioned": o.sanct, "permanent": o.perm, "temporary": o.temps, "live_proposals": o.live,
+		"total_deposits": o.deps, "balances": o.bals, "balances_b": o.balsb, "immediate_sanction_min": o.smin, "immediate_unsanction_min": o.umin}
 }
+
+func pair2(a, b int64) string { return fmt.Sprintf("(%s, %s)", zI64(a), zI64(b)) }
 
 // ---- operations ----
 
 type c06Msg struct {
 	kind  int // 0 sanction, 1 unsanction, 2 params
 	addrs []int
-	a, b  int64
+	a, b  [2]int64 // params update: immediate sanction / unsanction minimum (denom A, denom B)
 }
 
 func (m c06Msg) coq() string {
@@ -198,7 +230,7 @@ func (m c06Msg) coq() string {
 	case 1:
 		return "MUnsanction " + nList(m.addrs)
 	}
-	return fmt.Sprintf("MParams %s %s", zI64(m.a), zI64(m.b))
+	return fmt.Sprintf("MParams %s %s", pair2(m.a[0], m.a[1]), pair2(m.b[0], m.b[1]))
 }
 
 func (m c06Msg) String() string { return m.coq() }
@@ -214,13 +246,7 @@ func (h *c06Hist) sdkMsg(m c06Msg, authority string) sdk.Msg {
 	case 1:
 		return sanction.NewMsgUnsanction(authority, as...)
 	}
-	coins := func(v int64) sdk.Coins {
-		if v == 0 {
-			return sdk.NewCoins()
-		}
-		return sdk.NewCoins(sdk.NewInt64Coin(h.e.bond, v))
-	}
-	return sanction.NewMsgUpdateParams(authority, coins(m.a), coins(m.b))
+	return sanction.NewMsgUpdateParams(authority, h.coins2(m.a[0], m.a[1]), h.coins2(m.b[0], m.b[1]))
 }
 
 func (h *c06Hist) coins(v int64) sdk.Coins {
@@ -228,6 +254,18 @@ func (h *c06Hist) coins(v int64) sdk.Coins {
 		return sdk.NewCoins()
 	}
 	return sdk.NewCoins(sdk.NewInt64Coin(h.e.bond, v))
+}
+
+// coins2 builds a coin set from amounts of the two deposit denoms (non-positive = absent).
+func (h *c06Hist) coins2(a, b int64) sdk.Coins {
+	cs := sdk.NewCoins()
+	if a > 0 {
+		cs = cs.Add(sdk.NewInt64Coin(h.e.bond, a))
+	}
+	if b > 0 {
+		cs = cs.Add(sdk.NewInt64Coin(c06DenomB, b))
+	}
+	return cs
 }
 
 func (h *c06Hist) setGovPeriods(dp, vp int64) {
@@ -261,11 +299,15 @@ type c06Op struct {
 }
 
 func opSubmit(h *c06Hist, who int, ms []c06Msg, dep, dp, vp int64) c06Op {
+	return opSubmit2(h, who, ms, dep, 0, dp, vp)
+}
+
+func opSubmit2(h *c06Hist, who int, ms []c06Msg, dep, depB, dp, vp int64) c06Op {
 	var mt []string
 	for _, m := range ms {
 		mt = append(mt, m.coq())
 	}
-	term := fmt.Sprintf("OSubmit %d%%N %s %s %s %s", who, coqList(mt), zI64(dep), zI64(dp), zI64(vp))
+	term := fmt.Sprintf("OSubmit %d%%N %s %s %s %s", who, coqList(mt), pair2(dep, depB), zI64(dp), zI64(vp))
 	return c06Op{term: term, desc: term, kind: "submit", run: func(h *c06Hist) bool {
 		h.setGovPeriods(dp, vp)
 		var msgs []sdk.Msg
@@ -277,7 +319,7 @@ func opSubmit(h *c06Hist, who int, ms []c06Msg, dep, dp, vp int64) c06Op {
 			h.e.t.Fatal(err)
 		}
 		return h.apply(func(ctx sdk.Context) error {
-			msg, err := govv1.NewMsgSubmitProposal(msgs, h.coins(dep), h.addrs[who].String(), "", "c06 title", "c06 summary", false)
+			msg, err := govv1.NewMsgSubmitProposal(msgs, h.coins2(dep, depB), h.addrs[who].String(), "", "c06 title", "c06 summary", false)
 			if err != nil {
 				return err
 			}
@@ -290,13 +332,15 @@ func opSubmit(h *c06Hist, who int, ms []c06Msg, dep, dp, vp int64) c06Op {
 	}}
 }
 
-func opDeposit(who int, pid uint64, amt, vp int64) c06Op {
-	term := fmt.Sprintf("ODeposit %d%%N %d%%N %s %s", who, pid, zI64(amt), zI64(vp))
+func opDeposit(who int, pid uint64, amt, vp int64) c06Op { return opDeposit2(who, pid, amt, 0, vp) }
+
+func opDeposit2(who int, pid uint64, amt, amtB, vp int64) c06Op {
+	term := fmt.Sprintf("ODeposit %d%%N %d%%N %s %s", who, pid, pair2(amt, amtB), zI64(vp))
 	return c06Op{term: term, desc: term, kind: "deposit", run: func(h *c06Hist) bool {
 		gp, _ := h.e.app.GovKeeper.Params.Get(h.ctx)
 		h.setGovPeriods(int64(gp.MaxDepositPeriod.Seconds()), vp)
 		return h.apply(func(ctx sdk.Context) error {
-			return c06Deliver(h.e.app, ctx, govv1.NewMsgDeposit(h.addrs[who], pid, h.coins(amt)))
+			return c06Deliver(h.e.app, ctx, govv1.NewMsgDeposit(h.addrs[who], pid, h.coins2(amt, amtB)))
 		})
 	}}
 }
@@ -461,12 +505,28 @@ func (h *c06Hist) randMsg(r *rand.Rand) c06Msg {
 	case x < 18:
 		return c06Msg{kind: 1, addrs: h.randAddrs(r)}
 	default:
-		return c06Msg{kind: 2, a: pick64(r, 0, 200, 300, 700, 1500), b: pick64(r, 0, 200, 400, 1200)}
+		return c06Msg{kind: 2, a: c06Thresholds[r.Intn(len(c06Thresholds))], b: c06Thresholds[r.Intn(len(c06Thresholds))]}
 	}
 }
 
+// immediate minimum deposits: off, one denom (A or B), or both denoms; below and above the gov minimum
+var c06Thresholds = [][2]int64{{0, 0}, {300, 0}, {300, 10}, {700, 30}, {1500, 0}, {0, 30}, {200, 60}, {400, 0}, {400, 10}, {1200, 25}, {200, 0}}
+
+// depositAmountB picks the denom-B part of a deposit: often nothing, else around each B component.
+func (h *c06Hist) depositAmountB(r *rand.Rand) int64 {
+	if r.Intn(5) < 2 {
+		return 0
+	}
+	s, u := h.lastObs.smin[1], h.lastObs.umin[1]
+	v := pick64(r, 1, 5, s-1, s, s+1, u-1, u, u+1, c06GovMinB-1, c06GovMinB, c06GovMinB, c06GovMinB+1, 40, 70)
+	if v < 0 {
+		v = 0
+	}
+	return v
+}
+
 func (h *c06Hist) depositAmount(r *rand.Rand) int64 {
-	s, u := h.lastObs.smin, h.lastObs.umin
+	s, u := h.lastObs.smin[0], h.lastObs.umin[0]
 	return pick64(r, 1, 50, 100, s-1, s, s+1, u-1, u, u+1, c06GovMin-1, c06GovMin, c06GovMin, c06GovMin, c06GovMin+1, 400, 600, 1600, s-100, u-100)
 }
 
@@ -536,7 +596,7 @@ func (h *c06Hist) randOp(r *rand.Rand) c06Op {
 		for i, n := 0, 1+r.Intn(2); i < n; i++ {
 			ms = append(ms, h.randMsg(r))
 		}
-		if (h.lastObs.smin == 0 || h.lastObs.smin > c06GovMin) && r.Intn(4) == 0 {
+		if (h.lastObs.smin == [2]int64{0, 0} || h.lastObs.smin[0] > c06GovMin || h.lastObs.smin[1] > c06GovMinB) && r.Intn(4) == 0 {
 			// a proposal that can reach the vote but whose last message fails on execution
 			ms = append(ms, c06Msg{kind: 0, addrs: []int{r.Intn(c06NUsers), c06IDGov + r.Intn(2)}})
 		}
@@ -548,13 +608,29 @@ func (h *c06Hist) randOp(r *rand.Rand) c06Op {
 		if dep < 0 {
 			dep = 0
 		}
-		return opSubmit(h, who, ms, dep, pick64(r, 100, 200, 300), pick64(r, 100, 250, 400))
+		depB := h.depositAmountB(r)
+		if dep >= c06GovMin && depB < c06GovMinB && r.Intn(10) < 7 {
+			depB = c06GovMinB + pick64(r, 0, 0, 1, 15)
+		}
+		return opSubmit2(h, who, ms, dep, depB, pick64(r, 100, 200, 300), pick64(r, 100, 250, 400))
 	case x < 28:
-		amt := h.depositAmount(r)
-		if amt <= 0 && r.Intn(3) != 0 {
+		amt, amtB := h.depositAmount(r), h.depositAmountB(r)
+		if amt < 0 {
+			amt = 0
+		}
+		switch r.Intn(4) {
+		case 0:
+			amt = 0 // a deposit in denom B only
+		case 1:
+			amtB = 0
+		}
+		if amt <= 0 && amtB <= 0 && r.Intn(3) != 0 {
 			amt = 10
 		}
-		return opDeposit(r.Intn(c06NUsers), h.livePid(r), amt, pick64(r, 100, 250, 400))
+		if amt >= c06GovMin-1 && amtB < c06GovMinB && r.Intn(10) < 6 {
+			amtB = c06GovMinB
+		}
+		return opDeposit2(r.Intn(c06NUsers), h.livePid(r), amt, amtB, pick64(r, 100, 250, 400))
 	case x < 40:
 		return opVote(h.votingPid(r), r.Intn(3) != 0)
 	case x < 45:
@@ -626,7 +702,7 @@ func TestC06(t *testing.T) {
 	if err != nil {
 		t.Fatal(err)
 	}
-	gp.MinDeposit = sdk.NewCoins(sdk.NewInt64Coin(bond, c06GovMin))
+	gp.MinDeposit = sdk.NewCoins(sdk.NewInt64Coin(bond, c06GovMin), sdk.NewInt64Coin(c06DenomB, c06GovMinB))
 	gp.ExpeditedMinDeposit = sdk.NewCoins(sdk.NewInt64Coin(bond, 5*c06GovMin))
 	gp.MinInitialDepositRatio = "0"
 	gp.MinDepositRatio = "0"
@@ -653,23 +729,20 @@ func c06History(e *c06Env, r *rand.Rand, w *CaseWriter, hi int) {
 	for i := 0; i < c06NUsers; i++ {
 		a := addrN(6000 + hi*10 + i)
 		ensureAccount(e.app, ctx, a)
-		fund(e.t, e.app, ctx, a, sdk.NewCoins(sdk.NewInt64Coin(e.bond, int64(3000+r.Intn(4000)))))
+		fund(e.t, e.app, ctx, a, sdk.NewCoins(sdk.NewInt64Coin(e.bond, int64(3000+r.Intn(4000))), sdk.NewInt64Coin(c06DenomB, int64(150+r.Intn(300)))))
 		h.addrs = append(h.addrs, a)
 	}
 	h.addrs = append(h.addrs, e.govAddr, authtypes.NewModuleAddress(quarantine.ModuleName))
 	// sanction params for this history: thresholds below and above the gov minimum, or off
-	sm := pick64(r, 0, 300, 300, 700, 1500)
-	um := pick64(r, 0, 200, 400, 400, 1200)
-	if hi < 4 {
-		sm, um = 300, 400
+	sm := c06Thresholds[r.Intn(len(c06Thresholds))]
+	um := c06Thresholds[r.Intn(len(c06Thresholds))]
+	if hi < 3 {
+		sm, um = [2]int64{300, 0}, [2]int64{400, 0}
 	}
-	coinsOf := func(v int64) sdk.Coins {
-		if v == 0 {
-			return sdk.NewCoins()
-		}
-		return sdk.NewCoins(sdk.NewInt64Coin(e.bond, v))
+	if hi == 3 {
+		sm, um = [2]int64{300, 10}, [2]int64{400, 10}
 	}
-	if err := e.app.SanctionKeeper.SetParams(ctx, &sanction.Params{ImmediateSanctionMinDeposit: coinsOf(sm), ImmediateUnsanctionMinDeposit: coinsOf(um)}); err != nil {
+	if err := e.app.SanctionKeeper.SetParams(ctx, &sanction.Params{ImmediateSanctionMinDeposit: h.coins2(sm[0], sm[1]), ImmediateUnsanctionMinDeposit: h.coins2(um[0], um[1])}); err != nil {
 		e.t.Fatal(err)
 	}
 	firstID, err := e.app.GovKeeper.ProposalID.Peek(ctx)
@@ -694,10 +767,10 @@ func c06History(e *c06Env, r *rand.Rand, w *CaseWriter, hi int) {
 	case 1:
 		// one proposal per resolution kind: passed, rejected, failed, expired
 		script = []c06Op{
-			opSubmit(h, 0, []c06Msg{{kind: 0, addrs: []int{1}}}, 1000, 200, 100),                       // -> passed
-			opSubmit(h, 0, []c06Msg{{kind: 0, addrs: []int{2}}}, 1000, 200, 100),                       // -> rejected
+			opSubmit2(h, 0, []c06Msg{{kind: 0, addrs: []int{1}}}, 1000, 20, 200, 100),                  // -> passed
+			opSubmit2(h, 0, []c06Msg{{kind: 0, addrs: []int{2}}}, 1000, 20, 200, 100),                  // -> rejected
 			opSubmit(h, 0, []c06Msg{{kind: 0, addrs: []int{3}}, {kind: 0, addrs: []int{c06IDGov}}}, 200, 200, 100), // -> failed
-			opDeposit(3, firstID+2, 800, 100),
+			opDeposit2(3, firstID+2, 800, 20, 100),
 			opSubmit(h, 4, []c06Msg{{kind: 0, addrs: []int{3, 1}}}, 300, 100, 100),                     // -> expired
 			opVote(firstID, true), opVote(firstID+1, false), opVote(firstID+2, true),
 			opSend(1, 4, 5), opSend(2, 4, 5), opSend(3, 4, 5), opSend(4, 1, 5), opDelegate(2, 5), opPayFee(3, 5),
@@ -713,11 +786,32 @@ func c06History(e *c06Env, r *rand.Rand, w *CaseWriter, hi int) {
 			opSend(1, 4, 5), opSend(2, 4, 5),
 			opDeposit(4, firstID, 5, 400),
 			opSend(1, 4, 5),
-			opSubmit(h, 3, []c06Msg{{kind: 0, addrs: []int{1}}, {kind: 1, addrs: []int{2}}}, 1000, 300, 100),
+			opSubmit2(h, 3, []c06Msg{{kind: 0, addrs: []int{1}}, {kind: 1, addrs: []int{2}}}, 1000, 20, 300, 100),
 			opSend(1, 4, 5), opSend(2, 4, 5),
 			opVote(firstID+2, false),
 			opNewBlock(c06T0 + 100), opNewBlock(c06T0 + 101),
 			opSend(1, 4, 5), opSend(2, 4, 5),
+		}
+	}
+	if hi == 3 {
+		// two-denom immediate minimums (300 A + 10 B / 400 A + 10 B): a deposit covering only one of
+		// the denoms must not create temporary entries; completing the other denom does
+		script = []c06Op{
+			opDirect(h, true, c06Msg{kind: 0, addrs: []int{2}}, 0),                   // 2 permanently sanctioned
+			opSubmit2(h, 0, []c06Msg{{kind: 0, addrs: []int{1}}}, 300, 0, 300, 400), // under-funded: A only
+			opSend(1, 4, 5),
+			opSubmit2(h, 3, []c06Msg{{kind: 1, addrs: []int{2}}}, 400, 9, 300, 400), // under-funded: B short by one
+			opSend(2, 4, 5),
+			opSubmit2(h, 3, []c06Msg{{kind: 0, addrs: []int{4}}}, 0, 10, 300, 400), // under-funded: B only
+			opSend(4, 0, 5),
+			opDeposit2(4, firstID, 0, 10, 400), // completes proposal 1: account 1 sanctioned now
+			opSend(1, 4, 5),
+			opDeposit2(0, firstID+1, 0, 1, 400), // completes proposal 2: account 2 temporarily unsanctioned
+			opSend(2, 4, 5),
+			opDeposit2(0, firstID+2, 299, 0, 400), // still one short in A
+			opSend(4, 0, 5),
+			opDeposit2(0, firstID+2, 1, 0, 400),
+			opSend(4, 0, 5),
 		}
 	}
 	n := 25 + r.Intn(25)
@@ -799,9 +893,9 @@ func c06History(e *c06Env, r *rand.Rand, w *CaseWriter, hi int) {
 	if cancelledWithTemps {
 		w.Count("histories_with_cancelled_proposal_holding_temp_entries")
 	}
-	term := fmt.Sprintf("CHist [%d%%N; %d%%N] %d [0%%N; 1%%N; 2%%N; 3%%N; 4%%N; 5%%N; 6%%N] [0%%N; 1%%N; 2%%N; 3%%N; 4%%N] %d%%N %s\n    (%s)\n    %s",
-		c06IDGov, c06IDQuar, c06GovMin, firstID, zI64(c06T0), ob0.coq(), coqList(steps))
-	w.Add(term, map[string]any{"kind": "history", "index": hi, "immediate_sanction_min": sm, "immediate_unsanction_min": um, "gov_min_deposit": c06GovMin,
+	term := fmt.Sprintf("CHist [%d%%N; %d%%N] %s [0%%N; 1%%N; 2%%N; 3%%N; 4%%N; 5%%N; 6%%N] [0%%N; 1%%N; 2%%N; 3%%N; 4%%N] %d%%N %s\n    (%s)\n    %s",
+		c06IDGov, c06IDQuar, pair2(c06GovMin, c06GovMinB), firstID, zI64(c06T0), ob0.coq(), coqList(steps))
+	w.Add(term, map[string]any{"kind": "history", "index": hi, "immediate_sanction_min": sm, "immediate_unsanction_min": um, "gov_min_deposit": [2]int64{c06GovMin, c06GovMinB}, "denoms": "pairs are (bond denom, bbbcoin)",
 		"first_proposal_id": firstID, "universe": "0-4 plain accounts, 5 gov module account, 6 quarantine funds holder", "initial": ob0.json(), "steps": recs,
 		"accepted": accepted, "ops": total})
 	w.Count("histories")
